@@ -447,7 +447,7 @@ func (it *lexItem) emit(mask int) {
 }
 
 // exact decimal expansion of the rational num/den * 2^e2 (finite: den is a power of two)
-func exactDecimal(m *big.Int, e2 int) string {
+func c18ExactDecimal(m *big.Int, e2 int) string {
 	x := new(big.Rat).SetInt(m)
 	if e2 >= 0 {
 		x.Mul(x, new(big.Rat).SetInt(new(big.Int).Lsh(big.NewInt(1), uint(e2))))
@@ -458,7 +458,7 @@ func exactDecimal(m *big.Int, e2 int) string {
 }
 
 // the exact midpoint between the double with the given (positive, finite) bits and its successor, as a decimal literal
-func midpointDecimal(bits uint64) string {
+func c18MidpointDecimal(bits uint64) string {
 	exp := int(bits >> 52 & 0x7ff)
 	frac := bits & (1<<52 - 1)
 	var m uint64
@@ -471,7 +471,7 @@ func midpointDecimal(bits uint64) string {
 	mm := new(big.Int).SetUint64(m)
 	mm.Lsh(mm, 1)
 	mm.Add(mm, big.NewInt(1))
-	return exactDecimal(mm, e2-1)
+	return c18ExactDecimal(mm, e2-1)
 }
 
 func genC18Ftoa(r *rng, n int) []c18Item {
@@ -573,7 +573,7 @@ func genC18Ftoa(r *rng, n int) []c18Item {
 			if b >= 0x7fefffffffffffff {
 				b = 0x7feffffffffffffe
 			}
-			s := midpointDecimal(b)
+			s := c18MidpointDecimal(b)
 			lex(s)
 			lex(s + "1")
 			if s[len(s)-1] == '5' {
